@@ -159,6 +159,53 @@ def _model_second_round(stream, pairs):
     return ["%s|B:%s|conv:%s" % (a, o, conv) for (case, (a, conv)), o in zip(pairs, outs)]
 
 
+class WitnessStream(Stream):
+    """Ties C17_question_always_differs / C17_star_slash_differs to the code: for every glob of the grid the driver says whether
+    one of the two theorems speaks and gives the theorem's witness path; python-debian's real matcher and the REUSE.toml matcher
+    of the really converted glob must then differ on that path in the direction the theorem states."""
+    name = "witness"
+    exhaustive = True
+    rule = ("every dep5 glob of length <=N over {a . / * ? \\} (quick N=4, thorough N=5) plus 14 longer ones: where the glob is valid "
+            "and has a '?' wildcard, python-debian must match the theorem's witness path (each '*' read as nothing, each '?' as 'x') and "
+            "the converted glob must not; where it is an asterisk run, '/', and a plain rest, python-debian must not match the witness "
+            "of the rest and the converted glob must; non-trivial = one of the two theorems speaks")
+    EXTRA = ["src/?.c", "a?.txt", "?", "??", "*?", "\\??", "docs/*/?.md", "*/foo", "**/foo", "***/a/b", "*/", "*/*.c", "*/\\*", "*/docs/x.md"]
+
+    def cases(self, tier, rng):
+        n = 5 if tier == "thorough" else 4
+        for d in words(Dep5GlobStream.A, n):
+            if "?" in d or d.startswith("*"):
+                yield {"d": d}
+        for d in self.EXTRA:
+            yield {"d": d}
+
+    def impl(self, case):
+        return "x"
+
+    def model_lines(self, case):
+        return ["c17wit\t" + enc(case["d"])]
+
+    def agree(self, case, impl_out, model_out):
+        from debian.copyright import globs_to_re
+        if model_out == "-":
+            return True
+        kind, w = model_out.split("|")
+        w = dec(w)
+        d = case["d"]
+        pat = globs_to_re([d])                      # the theorem's hypothesis includes validity: an exception here is a disagreement
+        item = Dep5GlobStream().convert(d)
+        a, b = bool(pat.fullmatch(w)), bool(item.matches(w))
+        self._spoke = getattr(self, "_spoke", set())
+        self._spoke.add(d)
+        return (a, b) == ((True, False) if kind == "Q" else (False, True))
+
+    def nontrivial(self, case, impl_out):
+        return case["d"] if case["d"] in getattr(self, "_spoke", ()) else None
+
+    def oracle(self, case, impl_out):
+        return None
+
+
 class Dep5GlobStream2(Dep5GlobStream):
     """Same stream with the two-round model evaluation folded into model_out via a cache."""
 
@@ -332,7 +379,7 @@ class FileStream(Stream):
 
 PROPERTY = Property(
     pid="C17",
-    streams=[Dep5GlobStream2(), FileStream()],
+    streams=[Dep5GlobStream2(), WitnessStream(), FileStream()],
     assumptions=[
         "python-debian's globs_to_re is modelled by Model.dep5Blocks (validated exhaustively to the stated bound); its paragraph parser and tomlkit's serialiser are exercised end-to-end by the file stream, not modelled",
         "the glob theorem is partial: dep5 globs with an unescaped '?' or with an asterisk run directly followed by '/' are excluded (known findings)",
